@@ -290,6 +290,71 @@ def run(F, chk):
                           "saving what was loaded reads past the table" % (fn["name"], sidx))
     chk.floor(R3, 5)
 
+    # ---------------------------------------------------------------- R16.4 (= C15 R15.1 on the same facts)
+    chk.share(F, "c15", ["R15.1"], "R16.4",
+              "a truncated file leaves references half read or pointing at blocks that were never read: every block lookup on the "
+              "load / query / save paths is tested before it is dereferenced")
+    chk.floor("R16.4", 150)
+
+    # ---------------------------------------------------------------- R16.6
+    R6 = chk.rule("R16.6", "whatever a load leaves behind can be saved: on every path through the public NifFile functions that reset "
+                           "the header (Load, Clear, Create, CopyFrom) the header's pointer to the model's block vector is re-established "
+                           "after the last NiHeader::Clear (which nulls it) — Save and the string-table update dereference it")
+    HDR = "nifly::NiHeader"
+    memo6 = {}
+
+    def ref_state(fn, depth=0):
+        """set of possible final states {'set', 'null', 'same'} of the header's block pointer over the exits of fn"""
+        if fn["id"] in memo6:
+            return memo6[fn["id"]]
+        memo6[fn["id"]] = {"same"}
+
+        class T(flow.Flow):
+            def on_node(self, n, st):
+                if st is None or n["k"] != "Call":
+                    return st
+                if n.get("fn") == HDR + "::Clear":
+                    return frozenset(f for f in st if f[0] != "D" or not f[1].startswith("ref:")) | {("D", "ref:null")}
+                if n.get("fn") == HDR + "::SetBlockReference":
+                    return frozenset(f for f in st if f[0] != "D" or not f[1].startswith("ref:")) | {("D", "ref:set")}
+                g = F.fns.get(n.get("fid"))
+                if g and g.get("cls") == "nifly::NifFile" and g.get("body") and depth < 4 and g["id"] != fn["id"] and \
+                        (n.get("recv") is None or n["recv"]["k"] == "This"):
+                    sub = ref_state(g, depth + 1)
+                    if sub == {"set"}:
+                        return frozenset(f for f in st if f[0] != "D" or not f[1].startswith("ref:")) | {("D", "ref:set")}
+                    if "null" in sub:
+                        return frozenset(f for f in st if f[0] != "D" or not f[1].startswith("ref:")) | {("D", "ref:null")}
+                return st
+
+        t = T(F, fn)
+        t.run()
+        out = set()
+        for _, _, st in t.exits:
+            tags = {f[1][4:] for f in (st or ()) if f[0] == "D" and f[1].startswith("ref:")}
+            out |= tags or {"same"}
+        memo6[fn["id"]] = out or {"same"}
+        return memo6[fn["id"]]
+
+    n6 = 0
+    for fn in sorted(F.fns.values(), key=lambda f: f["id"]):
+        if fn.get("cls") != "nifly::NifFile" or fn.get("access") != "public" or fn.get("tmpl") == "pattern" or not fn.get("body"):
+            continue
+        reach = F.reachable([fn["id"]]) | {fn["id"]}
+        if not any(F.fns.get(r, {}).get("name") == HDR + "::Clear" for r in reach):
+            continue
+        memo6.clear()
+        stt = ref_state(fn)
+        ok = "null" not in stt
+        n6 += 1
+        chk.instance(R6, ok=ok, sample={"fn": fn["name"], "block_pointer_at_exits": sorted(stt)})
+        if not ok:
+            chk.violation("R16.6", "C16/R16.6:%s" % fn["name"], where(fn),
+                          "%s can return with the header's block-vector pointer null (NiHeader::Clear was the last thing to touch "
+                          "it): a Save of what the load left behind (an error exit leaves an empty model) dereferences the null "
+                          "pointer in UpdateHeaderStrings" % fn["name"])
+    chk.floor(R6, 3)
+
 
 def _pos_guard(st, d):
     """divisor proven >= 1 by a comparison fact like (0 < d) or !(d < 1)"""
